@@ -96,6 +96,20 @@ def _systems_in(S, sets):
     return [e for e in S.systems if any(s in sets for s in e["sets"]) and e["where"].startswith("<bevy_replicon::")]
 
 
+def _conditional(F, body, bb, param):
+    """'' if the clearing write at bb happens on every run of the reset system (only the presence of the optional resource itself may
+    be tested), else a description of the extra conditions."""
+    extra = []
+    tr = tracer(body)
+    for (sb, c, o) in required_outcomes(F, body, bb):
+        if c["kind"] == "variant" and o == {"Some"} and "place" in c:
+            roots = {x.data for x in tr.place(c["place"]) if x.kind == "param"}
+            if roots <= {param} and roots:
+                continue
+        extra.append("%s %s -> %s" % (c["kind"], c.get("name") or c.get("rel") or c.get("adt") or "", sorted(map(str, o))))
+    return (" CONDITIONAL on " + "; ".join(extra)) if extra else ""
+
+
 def _clearing_writes(F, path):
     """Resources a reset system clears: a ResMut/Option<ResMut> parameter that is either assigned a Default value or has a
     clear-like method called on it; plus family tokens whose erased `reset` fn pointer is invoked."""
@@ -116,7 +130,7 @@ def _clearing_writes(F, path):
             if m in ("clear", "reset", "drain") and t["args"]:
                 for o in btr.operand(t["args"][0]):
                     if o.kind == "param" and o.data in params and b is body:
-                        cleared[params[o.data]] = "%s()" % m
+                        cleared[params[o.data]] = ("%s()" % m) + _conditional(F, b, bb, o.data)
         # `*res = Default::default()`
         for bb, i, s in b.statements():
             if s["s"] == "assign" and s["place"]["p"] and "deref" in s["place"]["p"]:
@@ -125,7 +139,7 @@ def _clearing_writes(F, path):
                 is_default = any(o.kind == "call" and callee_decl(b.blocks[o.data].term).endswith("Default::default") for o in src)
                 for o in base:
                     if o.kind == "param" and o.data in params and is_default and b is body:
-                        cleared[params[o.data]] = "= Default::default()"
+                        cleared[params[o.data]] = "= Default::default()" + _conditional(F, b, bb, o.data)
     return cleared
 
 
@@ -154,6 +168,10 @@ def _check_session(ctx, label, W, table, resets, who):
         c, reason = cls
         if c.startswith("reset"):
             how = resets.get(tok)
+            if how is not None and " CONDITIONAL on " in how:
+                ctx.bad(key + "/" + c + "/unconditional", "", "`%s` (%s) is cleared by the reset system only under an additional condition (%s): when it does not hold the state survives "
+                        "into the next session" % (short(tok), reason, how.split(" CONDITIONAL on ", 1)[1]))
+                continue
             ctx.check(how is not None, key + "/" + c, "",
                       "`%s` (%s) is written during a session by %s but no %s system clears it: the next session starts with stale data" % (
                           short(tok), reason, sorted(short(w) for w in who.get(tok, []))[:3], c),
